@@ -10,6 +10,21 @@ use crate::security::*;
 //use crate::consensus_ops::*;
 use log;
 
+/// A session counts as a connection of the database it has selected only: selecting again (the
+/// same or another database) first gives up the connection it held
+fn leave_previous_db(
+    previous_db_name: &Option<String>,
+    dbs_map: &std::collections::HashMap<String, Database>,
+    dbs: &Arc<Databases>,
+) {
+    if let Some(previous_db_name) = previous_db_name {
+        if let Some(previous_db) = dbs_map.get(previous_db_name) {
+            previous_db.dec_connections();
+            set_connection_counter(previous_db, dbs);
+        }
+    }
+}
+
 fn process_request_obj(request: &Request, dbs: &Arc<Databases>, client: &mut Client) -> Response {
     match request.clone() {
         Request::ReplicateIncrement { db: name, key, inc } => apply_if_auth(&client.auth, &|| {
@@ -255,6 +270,7 @@ fn process_request_obj(request: &Request, dbs: &Arc<Databases>, client: &mut Cli
                             let mut user_name_state = client.selected_db.user_name.write().unwrap();
 
                             if is_valid_user_token(&token, &user_name, db) {
+                                leave_previous_db(&db_name_state, &dbs_map, &dbs);
                                 let _ = std::mem::replace(&mut *db_name_state, Some(name.clone()));
                                 let _ = std::mem::replace(
                                     &mut *user_name_state,
@@ -272,6 +288,7 @@ fn process_request_obj(request: &Request, dbs: &Arc<Databases>, client: &mut Cli
                         None => {
                             if is_valid_token(&token, db) {
                                 let mut db_name_state = client.selected_db.name.write().unwrap();
+                                leave_previous_db(&db_name_state, &dbs_map, &dbs);
                                 let _ = std::mem::replace(&mut *db_name_state, Some(name.clone()));
                                 db.inc_connections(); //Increment the number of connections
                                 set_connection_counter(db, &dbs);
